@@ -16,6 +16,7 @@ from engine import facts as F
 from engine import load
 from engine import orders as O
 from engine import sx
+from engine import terms as T
 
 LEVEL = "proof"
 
@@ -81,6 +82,8 @@ def main(rep, tier, only):
     rep.rule("ORD", "per-coordinate expression equals the point-set specification under every weak order of its scalars", floor=12)
     rep.rule("OUT", "outer structure: conjunction over all coordinates / box of per-coordinate pairs / null box when disjoint", floor=12)
     rep.rule("IVL", "box::interval<I> pairs (pos_I, max_I)", floor=1)
+    rep.rule("ACC", "representation contract: pos() / max() (const and non-const) return the stored corners, size() is max - min, the named edges read "
+                    "the matching corner and coordinate, the constructors store (pos, pos + size) / (min, max)", floor=12)
     rep.rule("CMP", "==, != and < of boxes read the component set {pos, size} on both operands", floor=3)
     domain_sizes = {}
     for name in sorted(set(k.split("#")[0] for k in SPECS)):
@@ -263,6 +266,43 @@ def main(rep, tier, only):
             (rep.ok if ok else rep.fail)("CMP", key, F.primary_site(fn), F.describe(fn)[:160], **({"how": "components{pos,size}"} if ok else {"why": why}))
     rep.extra["abstract_domain_sizes"] = domain_sizes
     rep.extra["exhaustive"] = True
+    # ---- ACC: representation contract the other rules rely on (pos()/max() ARE the stored corners)
+    want = {("pos", 0): "min_", ("max", 0): "max_", ("size", 0): "to_dim(operator-(max_, min_))",
+            ("left", 0): "min_.x()", ("right", 0): "max_.x()", ("top", 0): "min_.y()", ("bottom", 0): "max_.y()",
+            ("front", 0): "min_.z()", ("back", 0): "max_.z()"}
+    seen = set()
+    from engine import lrules as L2
+    for fn in L2.method_fns(db, "fcppt::math::box::object"):
+        u = fn["_unit"]
+        short = F.fn_name(fn).split("::")[-1]
+        if fn.get("kind") == "ctor":
+            inits = {i["field"]: T.show(T.norm(u, i["init"])) for i in fn.get("inits", []) if i.get("field")}
+            names = [p_["name"] for p_ in fn.get("params", [])]
+            key = "object(%s)|%s" % (",".join(names), "const" if False else "")
+            exp = None
+            if names == ["_pos", "_size"]:
+                exp = {"min_": ("_pos",), "max_": ("operator+(_pos, _size)", "(_pos + _size)")}
+            elif names == ["_min", "_max"]:
+                exp = {"min_": ("_min",), "max_": ("_max",)}
+            if exp is None or key in seen:
+                continue
+            seen.add(key)
+            bad = [f for f, vs in exp.items() if not any(v in inits.get(f, "") and len(inits.get(f, "")) <= len(v) + 40 for v in vs)]
+            swapped = exp and names == ["_min", "_max"] and "_max" in inits.get("min_", "")
+            (rep.fail if bad or swapped else rep.ok)("ACC", key, F.primary_site(fn), F.describe(fn)[:160],
+                                                     **({"why": "constructor stores %s" % inits} if bad or swapped else {"how": str(inits)}))
+            continue
+        k = (short, 0)
+        if k not in want or fn.get("params"):
+            continue
+        key = "%s()%s" % (short, " const" if fn.get("const") else "")
+        if key in seen:
+            continue
+        seen.add(key)
+        rets = [T.show(T.norm(u, r.get("e"))) for r in F.walk(fn.get("body"), into_lambdas=False) if r.get("k") == "return"]
+        ok = len(rets) == 1 and rets[0] == want[k]
+        (rep.ok if ok else rep.fail)("ACC", key, F.primary_site(fn), F.describe(fn)[:160],
+                                     **({"how": rets[0]} if ok else {"why": "%s returns %s, the box's representation contract says %s" % (key, rets, want[k])}))
     rep.explanation = ("Each per-coordinate expression is evaluated by abstract interpretation under every weak order of the scalars it "
                        "reads (finite domain; comparisons, std::min and std::max are interpreted exactly) and compared with the half-open "
                        "point-set specification; index coverage makes the result hold for every coordinate of every N analysed. No "
